@@ -362,7 +362,7 @@ package fzf
 //@ ensures result.arr == str.arr && result.off == str.off && len(result) <= len(str)
 
 //@ func JoinTokens
-//@ property C10
+//@ property C10 C07
 //@ requires forall(k, 0, len(tokens), tokens[k].text != nil)
 //@ ensures len(result) < 2147483648
 //@ note the concatenated content is produced by bytes.Buffer and is not specified
@@ -380,7 +380,7 @@ package fzf
 //@ spec func isAll(r Range) bool = r.begin == 0 && r.end == 0
 
 //@ func Transform
-//@ property C10
+//@ property C10 C07
 //@ requires forall(k, 0, len(tokens), tokens[k].text != nil) && len(tokens) < 2305843009213693952
 //@ requires forall(k, 0, len(withNth), -1073741824 < withNth[k].begin && withNth[k].begin < 1073741824 && -1073741824 < withNth[k].end && withNth[k].end < 1073741824)
 //@ ensures len(result) == len(withNth) && fresh(result)
@@ -735,11 +735,14 @@ package fzf
 // Option-value parsers that are proved panic-free for any argument text with no further contract
 // (library string functions are modelled as pure: see the evidence's trusted list).
 //@ func parseTiebreak
-//@ property C17
+//@ property C17 C04
+// (the score always comes first and there are at most four criteria: the rank of a result has four slots)
+//@ ensures r1 == nil ==> 1 <= len(r0) && len(r0) <= 4 && r0[0] == byScore
+//@ ensures (r0 == nil) == (r1 != nil)
 //@ loop 1
-//@   invariant fresh(criteria) && len(criteria) >= 1
+//@   invariant fresh(criteria) && len(criteria) >= 1 && criteria[0] == byScore
 //@ func parseScheme
-//@ property C17
+//@ property C17 C04
 //@ func parseWalkerOpts
 //@ property C17
 //@ func parseInfoStyle
